@@ -66,7 +66,13 @@ def run(rep, tier, seed):
 
     def one(r, it):
         k, g, name = it
-        check(r, H[k], g, name, seed)
+        try:
+            check(r, H[k], g, name, seed)
+        except RuntimeError as e:
+            if "too many paths" not in str(e):
+                raise
+            # (SO3 with the Jacobian-weighted variants, thorough tier: the branch structure exceeds the path cap)
+            r.not_run.append("C16/%s/%s: %s" % (g, FN[name], str(e)[-100:]))
         if name != "weighted":
             stationarity(r, H[k], g, name)
     rep.parallel(items, one)
